@@ -355,6 +355,14 @@ class C07Factories(Harness):
     bounds_doc = ("binnings derived from N<=3 symbolic data values: numpy_binning (bin_count 1..3, with/without range), fixed_width_binning (symbolic width, align / bin_shift, range), "
                   "integer_binning, quantile_binning (q lists and bin_count), calculate_1d_bins dispatch (int, edges, pairs, method names, binning object, callable, unknown name)")
 
+    def witness_hints(self, cx, p, x):
+        # fixed-width factories: concrete witnesses with dyadic widths / ranges / data (the floor arithmetic then agrees in exact reals and binary64;
+        # a witness such as w = 4.8, lo = -14.4 sits on a knife edge of floor(lo / w) and diverges from the real library)
+        if p.get("kind") != "fixed":
+            return []
+        vals = [x[k] for k in ("w", "s", "lo", "hi") if k in x] + list(x.get("v", []))
+        return [[z3.ToReal(z3.ToInt(cx.t(v) * 8)) == cx.t(v) * 8 for v in vals]]
+
     def instances(self, tier):
         ns = (2, 3) if tier != "quick" else (2,)
         for N in ns:
